@@ -15,7 +15,7 @@ import (
 
 func init() {
 	register("C13",
-		"KA-1: every potentially unbounded wait that the send goroutine can reach (all blocking selects in sendPacketsForever and its gbn callees) has a case on pongTicker.Ticks() that ends the loop with errKeepaliveTimeout, or is bounded by a timer - whatever the loop is doing (idle, sending, full window) pong expiry is observed. KA-2: on every ping-tick leg pong expiry is polled first, pongTicker.Reset+Resume and pingTicker.Reset happen on every path through the leg, the main loop's leg then sends a packet with IsPing set; pongTicker.Resume is called nowhere else; GetPingTime/GetPongTime map 0 (keepalive off) to MaxInt64 and start arms only the ping ticker. KA-3: in the receive loop every path from a successful Deserialize to the next iteration passes pingTicker.Reset and the pongTicker.IsActive test whose true leg pauses the pong ticker (a responding peer is never timed out). KA-5: both mailbox constructors enable gbn.WithKeepalivePing with positive durations, hand the stored options to the gbn constructor, and Refresh carries them over. KA-4: the error returned on pong expiry ends sendPacketsForever, whose wrapper closes the connection unconditionally. TICK-1/2/3 (the ticker the above relies on): Resume/Pause store 1/0 atomically and unconditionally, IsActive is load == 1 and nothing else writes the flag (a reset keeps it); the ticker goroutine forwards a clock tick to Force exactly under IsActive() in a select with the skip and quit alternatives, Ticks() returns Force; a reset stops the old clock, ends and waits for the old goroutine, installs NewTicker(newInterval) and a new quit channel, remembers the interval and starts one new goroutine on every path; Reset passes the stored interval, ResetWithInterval its argument, the constructor's clock and stored interval agree. Not decided: the time bound itself; the residual race between Pause and a tick that already passed the IsActive test.",
+		"KA-1: every potentially unbounded wait that the send goroutine can reach (all blocking selects in sendPacketsForever and its gbn callees) has a case on pongTicker.Ticks() that ends the loop with errKeepaliveTimeout, or is bounded by a timer - whatever the loop is doing (idle, sending, full window) pong expiry is observed. KA-2: on every ping-tick leg pong expiry is polled first, pongTicker.Reset+Resume and pingTicker.Reset happen on every path through the leg, the main loop's leg then sends a packet with IsPing set; pongTicker.Resume is called nowhere else; GetPingTime/GetPongTime map 0 (keepalive off) to MaxInt64 and start arms only the ping ticker. KA-3: in the receive loop every path from a successful Deserialize to the next iteration passes pingTicker.Reset and the pongTicker.IsActive test whose true leg pauses the pong ticker (a responding peer is never timed out). KA-6: every state-changing call on the ping, pong and resend timers sits in the function the logic assigns it to (ping: Resume in start, Reset in the two loops, Stop in Close; pong: Reset+Resume in the send loop, Pause in the receive loop, Stop in Close; resend: Reset in the two loops, Stop in Close). KA-5: both mailbox constructors enable gbn.WithKeepalivePing with positive durations, hand the stored options to the gbn constructor, and Refresh carries them over. KA-4: the error returned on pong expiry ends sendPacketsForever, whose wrapper closes the connection unconditionally. TICK-1/2/3 (the ticker the above relies on): Resume/Pause store 1/0 atomically and unconditionally, IsActive is load == 1 and nothing else writes the flag (a reset keeps it); the ticker goroutine forwards a clock tick to Force exactly under IsActive() in a select with the skip and quit alternatives, Ticks() returns Force; a reset stops the old clock, ends and waits for the old goroutine, installs NewTicker(newInterval) and a new quit channel, remembers the interval and starts one new goroutine on every path; Reset passes the stored interval, ResetWithInterval its argument, the constructor's clock and stored interval agree. Not decided: the time bound itself; the residual race between Pause and a tick that already passed the IsActive test.",
 		[]string{"time.Ticker delivers ticks at its interval"},
 		runC13)
 }
@@ -347,6 +347,77 @@ func ruleKA(c *Checker) {
 				c.decide(okk, "KA-2", "pongTicker."+m+"|"+fnName(fn), instrPos(ci), "part of the arming sequence of a ping leg (followed by Resume)",
 					"the pong timer is restarted outside the arming sequence of a ping leg: its expiry is pushed out (e.g. on every resend tick), so a silent peer is detected late or never")
 			}
+		}
+	}
+	// KA-6: who may operate the three timers. Every call of a state-changing timer method on the
+	// connection's ping, pong and resend timers sits in one of the functions (or a closure/helper
+	// called only from them) that the keepalive and resend logic assigns it to:
+	//   ping:   Resume in start; Reset in the send loop (ping legs) and the receive loop; Stop in Close
+	//   pong:   Reset+Resume in the send loop (ping legs); Pause in the receive loop; Stop in Close
+	//   resend: Reset in the send loop (after a resend) and the receive loop (valid ACK); Stop in Close
+	// Anything else (a Pause of the ping timer, a Stop outside Close, a Reset from Send/Recv ...)
+	// silently disables or postpones a timer.
+	{
+		fResend := w.Field("gbn.GoBackNConn.resendTicker")
+		owner := func(fn *ssa.Function) *ssa.Function {
+			// the top-level function a closure belongs to; a helper method called only from one
+			// top-level function counts as that function
+			for fn.Parent() != nil {
+				fn = fn.Parent()
+			}
+			if fn == sl || fn == rl || fn == start || fn == gclose {
+				return fn
+			}
+			if sites, closed := w.CallersOf(fn); closed && len(sites) > 0 {
+				var only *ssa.Function
+				for _, sx := range sites {
+					o := sx.Caller
+					for o.Parent() != nil {
+						o = o.Parent()
+					}
+					if only != nil && only != o {
+						return fn
+					}
+					only = o
+				}
+				if only != nil && only != fn && (only == sl || only == rl || only == start || only == gclose) {
+					return only
+				}
+			}
+			return fn
+		}
+		allowed := map[*types.Var]map[string][]*ssa.Function{
+			fPing:   {"Resume": {start}, "Reset": {sl, rl}, "ResetWithInterval": {}, "Pause": {}, "Stop": {gclose}, "ForceTick": {}},
+			fPong:   {"Resume": {sl}, "Reset": {sl}, "ResetWithInterval": {}, "Pause": {rl}, "Stop": {gclose}, "ForceTick": {}},
+			fResend: {"Reset": {sl, rl}, "Stop": {gclose}},
+		}
+		n6 := 0
+		for _, fn := range w.Funcs {
+			if w.pkgShort(fn) != targetGBN {
+				continue
+			}
+			for f, ms := range allowed {
+				if f == nil {
+					continue
+				}
+				for m, fns := range ms {
+					for _, ci := range callsOnField(fn, f, m) {
+						n6++
+						o := owner(fn)
+						okk := false
+						for _, a := range fns {
+							if a == o {
+								okk = true
+							}
+						}
+						c.decide(okk, "KA-6", fmt.Sprintf("%s.%s|in %s", f.Name(), m, fnName(o)), instrPos(ci), "an operation the timer's owner performs",
+							fmt.Sprintf("%s.%s is called from %s, which is not where this timer is meant to be operated: the keepalive or resend timer can be disabled, postponed or stopped behind the back of the loops", f.Name(), m, fnName(o)))
+					}
+				}
+			}
+		}
+		if n6 < 10 {
+			c.fail("KA-6", "sites", token.NoPos, fmt.Sprintf("only %d timer operations found", n6))
 		}
 	}
 	// start arms ping only
